@@ -10,13 +10,13 @@ FAMS = {
     "C01": (["order", "gates"], ["order", "gates", "tolerance", "cont"]),
     "C02": (["tolerance", "order"], ["tolerance", "order", "big"]),
     "C03": (["tolerance"], ["tolerance", "big", "cont"]),
-    "C04": (["tolerance", "gates", "contq"], ["tolerance", "gates", "cont", "order", "big"]),
+    "C04": (["tolerance", "gates", "contq"], ["tolerance", "gates", "cont", "order", "big", "live"]),
     "C05": (["retry"], ["retry", "retrychk"]),
     "C06": (["gates"], ["gates", "gates2"]),
-    "C07": (["contq", "gates"], ["cont", "gates", "gates2"]),
+    "C07": (["contq", "gates"], ["cont", "gates", "gates2", "live"]),
     "C08": (["order", "retry"], ["order", "retry", "tolerance", "gates"]),
     "C09": (["crash", "crash2"], ["crash", "crash2", "crashchk"]),
-    "C10": (["crash", "crashchk"], ["crash", "crash2", "crashchk"]),
+    "C10": (["crash", "crashchk"], ["crash", "crash2", "crashchk", "livecrash"]),
     "C11": ([], []),
     "C12": ([], []),
 }
